@@ -34,6 +34,10 @@ def setup():
     import qiskit.result  # noqa: F401
     import qiskit.transpiler  # noqa: F401
     import qiskit.transpiler.passes  # noqa: F401
+    # warnings a library call emits are not a result: they are not printed (the FILTERS are left alone: a change that
+    # leaks warnings.simplefilter("error") must still turn later warnings into exceptions, which the oracle then sees)
+    import warnings
+    warnings.showwarning = lambda *a, **k: None
     assert_pristine()
     # byte-code of the tree under test goes to a scratch directory owned by this invocation (set only
     # now, after the third-party imports, so that their own caches keep being used)
